@@ -96,4 +96,11 @@ class HH(Channel):
 
 
 def _vtrap(x, y):
-    return x / (save_exp(x / y) - 1.0)
+    """x / (exp(x/y) - 1), continuously extended to its removable singularity at x = 0."""
+    small = jnp.abs(x / y) < 1e-6
+    # Evaluate the quotient away from 0/0 (also keeps gradients finite) and use the
+    # first-order expansion y * (1 - x / (2y)) in the immediate vicinity of x = 0.
+    x_safe = jnp.where(small, y, x)
+    return jnp.where(
+        small, y * (1.0 - x / y / 2.0), x_safe / (save_exp(x_safe / y) - 1.0)
+    )
